@@ -950,6 +950,236 @@ impl VisitExpr for MarkedRecorder {
     leaf_callbacks!();
 }
 
+/// The shape of a fold: which results were combined with which, in which
+/// grouping. The default is the identity (it leaves no trace here; where
+/// defaults enter is checked with `Marked`).
+#[derive(Clone, Debug, PartialEq, Default)]
+pub enum Shape {
+    #[default]
+    Empty,
+    Leaf(u32),
+    Node(Box<Shape>, Box<Shape>),
+}
+
+impl From<u32> for Shape {
+    fn from(k: u32) -> Self {
+        Shape::Leaf(k)
+    }
+}
+
+impl Combine for Shape {
+    fn combine(self, other: Self) -> Self {
+        match (self, other) {
+            (Shape::Empty, x) | (x, Shape::Empty) => x,
+            (a, b) => Shape::Node(Box::new(a), Box::new(b)),
+        }
+    }
+}
+
+impl Shape {
+    fn render(&self) -> String {
+        match self {
+            Shape::Empty => "()".into(),
+            Shape::Leaf(k) => k.to_string(),
+            Shape::Node(a, b) => format!("({} {})", a.render(), b.render()),
+        }
+    }
+    /// left fold of the non-empty children
+    fn fold(children: Vec<Shape>) -> Shape {
+        children
+            .into_iter()
+            .fold(Shape::Empty, |acc, c| acc.combine(c))
+    }
+}
+
+/// Recorder F: leaf callbacks only, output records the shape of the fold.
+struct ShapeRecorder {
+    log: Log,
+}
+
+impl Visit for ShapeRecorder {
+    type Output = Shape;
+    type Error = Injected;
+}
+
+impl VisitExpr for ShapeRecorder {
+    leaf_callbacks!();
+}
+
+/// The fold the property describes: every node folds the results of its
+/// children left to right; leaves are numbered in visit order.
+struct RefShape {
+    next: u32,
+    infix_binary: bool,
+    infix_assign: bool,
+}
+
+impl RefShape {
+    fn leaf(&mut self) -> Shape {
+        let k = self.next;
+        self.next += 1;
+        Shape::Leaf(k)
+    }
+    fn program(&mut self, p: &Program) -> Shape {
+        let c = p.code.iter().map(|b| self.block(b)).collect();
+        Shape::fold(c)
+    }
+    fn block(&mut self, b: &Block) -> Shape {
+        match b {
+            Block::Empty(_) => Shape::Empty,
+            Block::NonEmpty(stmts) => {
+                let c = stmts.iter().map(|s| self.stmt(s)).collect();
+                Shape::fold(c)
+            }
+        }
+    }
+    fn stmt(&mut self, s: &Statement) -> Shape {
+        match s {
+            Statement::Assignment(a) => {
+                let mut c = vec![self.lhs(&a.dest)];
+                if self.infix_assign && a.operator.is_some() {
+                    c.push(self.leaf());
+                }
+                match &a.value {
+                    AssignmentRHS::ExpressionList(l) => c.push(self.list(l)),
+                }
+                if !self.infix_assign && a.operator.is_some() {
+                    c.push(self.leaf());
+                }
+                Shape::fold(c)
+            }
+            Statement::PoeticAssignment(PoeticAssignment::Number(a)) => {
+                let l = self.lhs(&a.dest);
+                let r = match &a.rhs {
+                    PoeticNumberAssignmentRHS::Expression(e) => self.expr(e),
+                    PoeticNumberAssignmentRHS::PoeticNumberLiteral(p) => self.poetic(p),
+                };
+                Shape::fold(vec![l, r])
+            }
+            Statement::PoeticAssignment(PoeticAssignment::String(a)) => self.lhs(&a.dest),
+            Statement::If(i) => {
+                let c = self.expr(&i.condition);
+                let t = self.block(&i.then_block);
+                let e = i.else_block.as_ref().map_or(Shape::Empty, |b| self.block(b));
+                Shape::fold(vec![c, t, e])
+            }
+            Statement::While(w) => {
+                let c = self.expr(&w.condition);
+                let b = self.block(&w.block);
+                Shape::fold(vec![c, b])
+            }
+            Statement::Until(u) => {
+                let c = self.expr(&u.condition);
+                let b = self.block(&u.block);
+                Shape::fold(vec![c, b])
+            }
+            Statement::Inc(i) => self.ident(&i.dest),
+            Statement::Dec(d) => self.ident(&d.dest),
+            Statement::Input(i) => match &i.dest {
+                InputDest::Some(d) => self.lhs(d),
+                InputDest::None(_) => Shape::Empty,
+            },
+            Statement::Output(o) => self.expr(&o.value),
+            Statement::Mutation(m) => {
+                let o = self.primary(&m.operand);
+                let d = m.dest.as_ref().map_or(Shape::Empty, |d| self.lhs(d));
+                let p = m.param.as_ref().map_or(Shape::Empty, |p| self.expr(p));
+                Shape::fold(vec![o, d, p])
+            }
+            Statement::Rounding(r) => self.expr(&r.operand),
+            Statement::Continue(_) | Statement::Break(_) => Shape::Empty,
+            Statement::ArrayPush(a) => {
+                let arr = self.primary(&a.array);
+                let v = match &a.value {
+                    None => Shape::Empty,
+                    Some(ArrayPushRHS::ExpressionList(l)) => self.list(l),
+                    Some(ArrayPushRHS::PoeticNumberLiteral(p)) => self.poetic(p),
+                };
+                Shape::fold(vec![arr, v])
+            }
+            Statement::ArrayPop(a) => {
+                let e = self.primary(&a.expr.array);
+                let d = a.dest.as_ref().map_or(Shape::Empty, |d| self.lhs(d));
+                Shape::fold(vec![e, d])
+            }
+            Statement::Return(r) => self.expr(&r.value),
+            Statement::Function(f) => {
+                let name = self.leaf();
+                let params: Vec<Shape> = f.data.params.iter().map(|_| self.leaf()).collect();
+                let params = Shape::fold(params);
+                let body = self.block(&f.data.body);
+                let data = Shape::fold(vec![params, body]);
+                Shape::fold(vec![name, data])
+            }
+            Statement::FunctionCall(c) => self.call(c),
+        }
+    }
+    fn lhs(&mut self, l: &AssignmentLHS) -> Shape {
+        match l {
+            AssignmentLHS::Identifier(i) => self.ident(i),
+            AssignmentLHS::ArraySubscript(a) => self.subscript(a),
+        }
+    }
+    fn ident(&mut self, _: &WithRange<Identifier>) -> Shape {
+        self.leaf()
+    }
+    fn subscript(&mut self, a: &ArraySubscript) -> Shape {
+        let x = self.primary(&a.array);
+        let y = self.primary(&a.subscript);
+        Shape::fold(vec![x, y])
+    }
+    fn call(&mut self, c: &FunctionCall) -> Shape {
+        let mut ch = vec![self.leaf()];
+        for a in &c.args {
+            ch.push(self.expr(a));
+        }
+        Shape::fold(ch)
+    }
+    fn list(&mut self, l: &ExpressionList) -> Shape {
+        let mut ch = vec![self.expr(&l.first)];
+        for e in &l.rest {
+            ch.push(self.expr(e));
+        }
+        Shape::fold(ch)
+    }
+    fn poetic(&mut self, p: &PoeticNumberLiteral) -> Shape {
+        let ch = p.elems.iter().map(|_| self.leaf()).collect();
+        Shape::fold(ch)
+    }
+    fn expr(&mut self, e: &Expression) -> Shape {
+        match e {
+            Expression::PrimaryExpression(p) => self.primary(p),
+            Expression::BinaryExpression(b) => {
+                if self.infix_binary {
+                    let l = self.expr(&b.lhs);
+                    let o = self.leaf();
+                    let r = self.list(&b.rhs);
+                    Shape::fold(vec![l, o, r])
+                } else {
+                    let o = self.leaf();
+                    let l = self.expr(&b.lhs);
+                    let r = self.list(&b.rhs);
+                    Shape::fold(vec![o, l, r])
+                }
+            }
+            Expression::UnaryExpression(u) => {
+                let o = self.leaf();
+                let x = self.expr(&u.operand);
+                Shape::fold(vec![o, x])
+            }
+        }
+    }
+    fn primary(&mut self, p: &PrimaryExpression) -> Shape {
+        match p {
+            PrimaryExpression::Literal(_) => self.leaf(),
+            PrimaryExpression::Identifier(i) => self.ident(i),
+            PrimaryExpression::ArraySubscript(a) => self.subscript(a),
+            PrimaryExpression::FunctionCall(c) => self.call(c),
+            PrimaryExpression::ArrayPop(a) => self.primary(&a.array),
+        }
+    }
+}
+
 /// Recorder B: leaf callbacks plus the pure dispatch methods, which log
 /// "entered node" (and may fail there) and then repeat the one-line match.
 struct InteriorRecorder {
@@ -1565,6 +1795,46 @@ impl Property for C16 {
                         ]),
                         log_hash: h,
                         tags: vec!["recorder:MarkedTwice".into()],
+                    });
+                    return res;
+                }
+            }
+        }
+        // the shape of the fold: every node folds its children's results left
+        // to right (observable only with a Combine that is not associative)
+        {
+            crate::driver::heartbeat();
+            let mut runner = ExprVisitorRunner::with_inner(ShapeRecorder {
+                log: Log::new(None, nonce),
+            });
+            let result = guarded(|| runner.visit_program(&program));
+            res.executions += 1;
+            stats.inc("count.fold_shape_walks");
+            if let Ok(Ok(shape)) = &result {
+                let mut admissible_shapes: Vec<Shape> = Vec::new();
+                for (ib, ia) in [(true, true), (false, true), (true, false), (false, false)] {
+                    let mut r = RefShape {
+                        next: 0,
+                        infix_binary: ib,
+                        infix_assign: ia,
+                    };
+                    admissible_shapes.push(r.program(&program));
+                }
+                if !admissible_shapes.contains(shape) {
+                    let got = shape.render();
+                    let want = admissible_shapes[0].render();
+                    let h = hash_combine(0xF6, hash_bytes(got.as_bytes()));
+                    res.violation = Some(Violation {
+                        rule: "C16.Q6-each-node-folds-left-to-right".into(),
+                        detail: "the grouping of the folded result differs from folding every node's children left to right (recorded with a Combine that is not associative; defaults count as identity)".into(),
+                        render: J::obj(vec![
+                            ("tree", J::s(format!("{:#?}", program))),
+                            ("fold_recorded", J::s(got)),
+                            ("fold_expected", J::s(want)),
+                            ("callbacks", J::A(leaf_expected[0].iter().map(|e| J::s(e.clone())).collect())),
+                        ]),
+                        log_hash: h,
+                        tags: vec!["recorder:Shape".into()],
                     });
                     return res;
                 }
